@@ -472,6 +472,25 @@ func checkValueFamily(v any, f *family) []string {
 			st.Delete("k")
 			st.Set("k", v)
 		}},
+		{"Set(other); read x3; Delete; Set", func(st *flyt.SharedStore) {
+			st.Set("k", primeValue(f.name))
+			f.get(st, "k")
+			f.get(st, "k")
+			f.getOr(st, "k", f.def)
+			st.Delete("k")
+			st.Set("k", v)
+		}},
+		{"Set(other); read x3; Set(other); read x2; Clear; Set", func(st *flyt.SharedStore) {
+			st.Set("k", primeValue(f.name))
+			f.get(st, "k")
+			f.get(st, "k")
+			f.get(st, "k")
+			st.Set("k", primeValue(f.name))
+			f.get(st, "k")
+			f.get(st, "k")
+			st.Clear()
+			st.Set("k", v)
+		}},
 	}
 	var gMissing any
 	for _, hist := range histories {
